@@ -37,6 +37,16 @@ def emit_kinds(ctx, env):
 
 def run(ctx):
     """entry"""
+    a = None
+    c = None
+    e = None
+    facts = None
+    holders = None
+    k = None
+    n = None
+    ok = None
+    p = None
+    r = None
     index = ctx.index
     env = ModuleEnv(index)
     graph = RefGraph(index)
@@ -58,256 +68,276 @@ def run(ctx):
     gfc = index.func("cdd.compound.gen_utils.get_functions_and_classes")
     gek = index.func("cdd.compound.gen_utils.get_emit_kwarg")
     get_emitter = index.func("cdd.shared.emit.utils.emitter_utils.get_emitter")
-    # ------------------------------------------------------------ guard
-    facts_at = {}
+    def _sec_guard():
+        nonlocal c, e, facts, n, ok
+        # ------------------------------------------------------------ guard
+        facts_at = {}
 
-    def on_expr(n, facts):
-        facts_at[id(n)] = facts
+        def on_expr(n, facts):
+            facts_at[id(n)] = facts
 
-    GuardWalker(on_expr=on_expr).walk_function(main.node)
-    gen_calls = [
-        n
-        for n in iter_own(main.node)
-        if isinstance(n, ast.Call) and index.callee(main.mod, n, main) == gen.qual
-    ]
-    ctx.need(gen_calls, "call to gen vanished from main")
-    for c in gen_calls:
-        facts = facts_at.get(id(c)) or {}
-        ok, why = False, "no dominating refuse-if-exists test"
-        for text, truth in facts.items():
-            if truth is not False or "isfile" not in text:
+        GuardWalker(on_expr=on_expr).walk_function(main.node)
+        gen_calls = [
+            n
+            for n in iter_own(main.node)
+            if isinstance(n, ast.Call) and index.callee(main.mod, n, main) == gen.qual
+        ]
+        ctx.need(gen_calls, "call to gen vanished from main")
+        for c in gen_calls:
+            facts = facts_at.get(id(c)) or {}
+            ok, why = False, "no dominating refuse-if-exists test"
+            for text, truth in facts.items():
+                if truth is not False or "isfile" not in text:
+                    continue
+                e = ast.parse(text, mode="eval").body
+                conj = e.values if isinstance(e, ast.BoolOp) and isinstance(e.op, ast.And) else [e]
+                texts = [norm(x) for x in conj]
+                has_isfile = any("isfile" in t and "output_filename" in t for t in texts)
+                others = [t for t in texts if not ("isfile" in t and "output_filename" in t)]
+                if has_isfile and all(t == "args.phase == 0" for t in others):
+                    ok, why = True, ""
+                    break
+                if has_isfile:
+                    why = "the refusal test has extra conjuncts that weaken it: {}".format(others)
+            # the true arm must raise: guaranteed by the fact being False after an `if` that terminates
+            ctx.ob("C19.guard", main, c, ok, why)
+        # the guard's true arm raises (not e.g. prints and continues)
+        for n in iter_own(main.node):
+            if isinstance(n, ast.If) and "isfile" in norm(n.test) and "output_filename" in norm(n.test):
+                ok = bool(n.body) and isinstance(n.body[-1], ast.Raise)
+                ctx.ob("C19.guard", main, "if " + short(n.test, 80), ok, "" if ok else "the refuse-if-exists arm no longer raises", line=n.lineno)
+
+    ctx.section(_sec_guard)
+
+    def _sec_append():
+        nonlocal e, facts, n, p, r
+        # ----------------------------------------------------------- append
+        gfacts = {}
+
+        def on_expr2(n, facts):
+            gfacts[id(n)] = facts
+
+        GuardWalker(on_expr=on_expr2).walk_function(gen.node)
+        n_sites = 0
+        for n in iter_own(gen.node):
+            if not isinstance(n, (ast.Name, ast.Attribute)) or not isinstance(getattr(n, "ctx", None), ast.Load):
                 continue
-            e = ast.parse(text, mode="eval").body
-            conj = e.values if isinstance(e, ast.BoolOp) and isinstance(e.op, ast.And) else [e]
-            texts = [norm(x) for x in conj]
-            has_isfile = any("isfile" in t and "output_filename" in t for t in texts)
-            others = [t for t in texts if not ("isfile" in t and "output_filename" in t)]
-            if has_isfile and all(t == "args.phase == 0" for t in others):
-                ok, why = True, ""
-                break
-            if has_isfile:
-                why = "the refusal test has extra conjuncts that weaken it: {}".format(others)
-        # the true arm must raise: guaranteed by the fact being False after an `if` that terminates
-        ctx.ob("C19.guard", main, c, ok, why)
-    # the guard's true arm raises (not e.g. prints and continues)
-    for n in iter_own(main.node):
-        if isinstance(n, ast.If) and "isfile" in norm(n.test) and "output_filename" in norm(n.test):
-            ok = bool(n.body) and isinstance(n.body[-1], ast.Raise)
-            ctx.ob("C19.guard", main, "if " + short(n.test, 80), ok, "" if ok else "the refuse-if-exists arm no longer raises", line=n.lineno)
-    # ----------------------------------------------------------- append
-    gfacts = {}
+            p = gen.mod.parents.get(n)
+            if isinstance(p, ast.Attribute) and p.value is n:
+                continue
+            r = index.resolve(gen.mod, n, gen)
+            if r not in wm.may or r not in index.funcs:
+                continue
+            n_sites += 1
+            facts = gfacts.get(id(n)) or {}
+            if facts.get("phase > 0") is True:
+                ctx.ob("C19.append", gen, short(n) + " (phase>0 arm)", True, line=n.lineno)
+                continue
+            # every primitive write reachable from r must be append mode
+            bad = []
+            for q in graph.reachable([r]):
+                for e in wm.direct.get(q, ()):
+                    if e.sub != "open:a":
+                        bad.append("{} in {}".format(e.sub, q))
+                for node, wq, mode in wm.wrapper_write_sites.get(q, ()):
+                    if mode != "a":
+                        bad.append("{}(mode={!r}) in {}".format(wq, mode, q))
+            ctx.ob(
+                "C19.append",
+                gen,
+                short(n),
+                not bad,
+                ""
+                if not bad
+                else "reachable at phase 0 and may truncate/modify an existing file: {}".format(bad[:3]),
+                line=n.lineno,
+            )
+        for e in wm.direct.get(gen.qual, ()):
+            n_sites += 1
+            ctx.ob("C19.append", gen, e.call, e.sub == "open:a", "" if e.sub == "open:a" else "gen itself opens with " + e.sub)
+        ctx.count("gen_write_reference_sites", n_sites)
+        ctx.floor("write reference sites in gen", n_sites, 4)
 
-    def on_expr2(n, facts):
-        gfacts[id(n)] = facts
+    ctx.section(_sec_append)
 
-    GuardWalker(on_expr=on_expr2).walk_function(gen.node)
-    n_sites = 0
-    for n in iter_own(gen.node):
-        if not isinstance(n, (ast.Name, ast.Attribute)) or not isinstance(getattr(n, "ctx", None), ast.Load):
-            continue
-        p = gen.mod.parents.get(n)
-        if isinstance(p, ast.Attribute) and p.value is n:
-            continue
-        r = index.resolve(gen.mod, n, gen)
-        if r not in wm.may or r not in index.funcs:
-            continue
-        n_sites += 1
-        facts = gfacts.get(id(n)) or {}
-        if facts.get("phase > 0") is True:
-            ctx.ob("C19.append", gen, short(n) + " (phase>0 arm)", True, line=n.lineno)
-            continue
-        # every primitive write reachable from r must be append mode
-        bad = []
-        for q in graph.reachable([r]):
-            for e in wm.direct.get(q, ()):
-                if e.sub != "open:a":
-                    bad.append("{} in {}".format(e.sub, q))
-            for node, wq, mode in wm.wrapper_write_sites.get(q, ()):
-                if mode != "a":
-                    bad.append("{}(mode={!r}) in {}".format(wq, mode, q))
+    def _sec_names():
+        nonlocal a, c, holders, k, ok, p
+        # ------------------------------------------------------------ names
+        holders = [gfc] + [f for f in index.funcs.values() if f.outer is gfc]
+        appends = [
+            (h, n)
+            for h in holders
+            for n in iter_own(h.node)
+            if isinstance(n, ast.Call)
+            and isinstance(n.func, ast.Attribute)
+            and n.func.attr == "append"
+            and norm(n.func.value) == "global__all__"
+        ]
+        ctx.need(len(appends) >= 1, "global__all__.append vanished from get_functions_and_classes")
+        ok = len(appends) == 1
+        ctx.ob("C19.names", gfc, "exactly one global__all__.append", ok, "" if ok else "{} appends".format(len(appends)), line=gfc.node.lineno)
+        holder, app = appends[0]
+        all_expr = norm(app.args[0]) if app.args else ""
+        # unconditional, once per input element: no conditional construct between the append and its function
+        uncond = True
+        child, p = app, holder.mod.parents.get(app)
+        while p is not None and p is not holder.node:
+            if isinstance(p, ast.BoolOp):
+                if isinstance(p.op, ast.Or):
+                    for v in p.values[: p.values.index(child)]:
+                        if not (isinstance(v, ast.Call) and norm(v.func) in ("print", "global__all__.append")):
+                            uncond = False
+                else:
+                    uncond = False
+            elif isinstance(p, (ast.If, ast.IfExp, ast.While, ast.Try)):
+                uncond = False
+            elif isinstance(p, (ast.GeneratorExp, ast.ListComp)):
+                if any(g.ifs for g in p.generators) or p.elt is not child:
+                    uncond = False
+            child, p = p, holder.mod.parents.get(p)
+        ctx.ob("C19.names", holder, app, uncond, "" if uncond else "__all__ append is conditional or not once per input element")
+        # emitter side: get_emit_kwarg's name expression
+        lam_calls = [n for n in iter_own(gek.node) if isinstance(n, ast.Call) and isinstance(n.func, ast.Lambda)]
+        ctx.need(len(lam_calls) == 1 and lam_calls[0].args, "get_emit_kwarg no longer has the (lambda _name: table[emit_name])(name expr) shape")
+        name_expr = lam_calls[0].args[0]
+        inner = name_expr
+        if isinstance(inner, ast.IfExp):
+            # None if name == "infer" else <expr>
+            ok_if = isinstance(inner.body, ast.Constant) and inner.body.value is None
+            ctx.need(ok_if, "unexpected conditional around the emitter name")
+            inner = inner.orelse
+        wrappers = []
+        while isinstance(inner, ast.Call) and isinstance(inner.func, ast.Name) and inner.func.id in IDENTITY_ON_IDENTIFIERS and len(inner.args) == 1:
+            wrappers.append(inner.func.id)
+            inner = inner.args[0]
+        emit_expr = norm(inner)
+        same = emit_expr == all_expr
         ctx.ob(
-            "C19.append",
-            gen,
-            short(n),
-            not bad,
+            "C19.names",
+            gek,
+            name_expr,
+            same,
             ""
-            if not bad
-            else "reachable at phase 0 and may truncate/modify an existing file: {}".format(bad[:3]),
-            line=n.lineno,
+            if same
+            else "name handed to the emitter is `{}` but __all__ receives `{}`".format(emit_expr, all_expr),
         )
-    for e in wm.direct.get(gen.qual, ()):
-        n_sites += 1
-        ctx.ob("C19.append", gen, e.call, e.sub == "open:a", "" if e.sub == "open:a" else "gen itself opens with " + e.sub)
-    ctx.count("gen_write_reference_sites", n_sites)
-    ctx.floor("write reference sites in gen", n_sites, 4)
-    # ------------------------------------------------------------ names
-    holders = [gfc] + [f for f in index.funcs.values() if f.outer is gfc]
-    appends = [
-        (h, n)
-        for h in holders
-        for n in iter_own(h.node)
-        if isinstance(n, ast.Call)
-        and isinstance(n.func, ast.Attribute)
-        and n.func.attr == "append"
-        and norm(n.func.value) == "global__all__"
-    ]
-    ctx.need(len(appends) >= 1, "global__all__.append vanished from get_functions_and_classes")
-    ok = len(appends) == 1
-    ctx.ob("C19.names", gfc, "exactly one global__all__.append", ok, "" if ok else "{} appends".format(len(appends)), line=gfc.node.lineno)
-    holder, app = appends[0]
-    all_expr = norm(app.args[0]) if app.args else ""
-    # unconditional, once per input element: no conditional construct between the append and its function
-    uncond = True
-    child, p = app, holder.mod.parents.get(app)
-    while p is not None and p is not holder.node:
-        if isinstance(p, ast.BoolOp):
-            if isinstance(p.op, ast.Or):
-                for v in p.values[: p.values.index(child)]:
-                    if not (isinstance(v, ast.Call) and norm(v.func) in ("print", "global__all__.append")):
-                        uncond = False
-            else:
-                uncond = False
-        elif isinstance(p, (ast.If, ast.IfExp, ast.While, ast.Try)):
-            uncond = False
-        elif isinstance(p, (ast.GeneratorExp, ast.ListComp)):
-            if any(g.ifs for g in p.generators) or p.elt is not child:
-                uncond = False
-        child, p = p, holder.mod.parents.get(p)
-    ctx.ob("C19.names", holder, app, uncond, "" if uncond else "__all__ append is conditional or not once per input element")
-    # emitter side: get_emit_kwarg's name expression
-    lam_calls = [n for n in iter_own(gek.node) if isinstance(n, ast.Call) and isinstance(n.func, ast.Lambda)]
-    ctx.need(len(lam_calls) == 1 and lam_calls[0].args, "get_emit_kwarg no longer has the (lambda _name: table[emit_name])(name expr) shape")
-    name_expr = lam_calls[0].args[0]
-    inner = name_expr
-    if isinstance(inner, ast.IfExp):
-        # None if name == "infer" else <expr>
-        ok_if = isinstance(inner.body, ast.Constant) and inner.body.value is None
-        ctx.need(ok_if, "unexpected conditional around the emitter name")
-        inner = inner.orelse
-    wrappers = []
-    while isinstance(inner, ast.Call) and isinstance(inner.func, ast.Name) and inner.func.id in IDENTITY_ON_IDENTIFIERS and len(inner.args) == 1:
-        wrappers.append(inner.func.id)
-        inner = inner.args[0]
-    emit_expr = norm(inner)
-    same = emit_expr == all_expr
-    ctx.ob(
-        "C19.names",
-        gek,
-        name_expr,
-        same,
-        ""
-        if same
-        else "name handed to the emitter is `{}` but __all__ receives `{}`".format(emit_expr, all_expr),
-    )
-    # get_functions_and_classes passes name_tpl and name through unchanged
-    gek_calls = [(h, n) for h in holders for n in iter_own(h.node) if isinstance(n, ast.Call) and index.callee(h.mod, n, h) == gek.qual]
-    ctx.need(gek_calls, "get_emit_kwarg call vanished")
-    for _h, c in gek_calls:
-        bound = {}
-        for i, a in enumerate(c.args):
-            if i < len(gek.params):
-                bound[gek.params[i]] = norm(a)
-        for k in c.keywords:
-            bound[k.arg] = norm(k.value)
-        ok = bound.get("name_tpl") == "name_tpl" and bound.get("name") == "name"
-        ctx.ob("C19.names", gfc, c, ok, "" if ok else "get_emit_kwarg receives name_tpl={} name={}".format(bound.get("name_tpl"), bound.get("name")))
-    # --------------------------------------------------------- dispatch
-    kinds, choices = emit_kinds(ctx, env)
-    ctx.count("emit_kinds", len(kinds))
-    try:
-        san = env.value("cdd.shared.pure_utils.sanitise_emit_name")
-    except Unknown as x:
-        ctx.need(False, "cannot fold sanitise_emit_name: {}".format(x))
-    always_kw = set()
-    for n in [x for h in holders for x in iter_own(h.node)]:
-        if isinstance(n, ast.Call) and isinstance(n.func, ast.Name) and n.func.id == "emitter":
-            always_kw = {k.arg for k in n.keywords if k.arg}
-            n_pos = len(n.args)
-    ctx.need(always_kw, "emitter(...) call vanished from get_functions_and_classes")
-    rows = []
-    for k in kinds:
+        # get_functions_and_classes passes name_tpl and name through unchanged
+        gek_calls = [(h, n) for h in holders for n in iter_own(h.node) if isinstance(n, ast.Call) and index.callee(h.mod, n, h) == gek.qual]
+        ctx.need(gek_calls, "get_emit_kwarg call vanished")
+        for _h, c in gek_calls:
+            bound = {}
+            for i, a in enumerate(c.args):
+                if i < len(gek.params):
+                    bound[gek.params[i]] = norm(a)
+            for k in c.keywords:
+                bound[k.arg] = norm(k.value)
+            ok = bound.get("name_tpl") == "name_tpl" and bound.get("name") == "name"
+            ctx.ob("C19.names", gfc, c, ok, "" if ok else "get_emit_kwarg receives name_tpl={} name={}".format(bound.get("name_tpl"), bound.get("name")))
+
+    ctx.section(_sec_names)
+
+    def _sec_dispatch():
+        nonlocal a, k, n, ok, r
+        # --------------------------------------------------------- dispatch
+        kinds, choices = emit_kinds(ctx, env)
+        ctx.count("emit_kinds", len(kinds))
         try:
-            s = san(k)
-        except KeyError:
-            ctx.ob("C19.dispatch", gen, "sanitise_emit_name[{!r}]".format(k), False, "CLI emit kind missing from sanitise_emit_name", line=gen.node.lineno)
-            continue
-        r = peval(index, env, get_emitter, {"emit_name": s})
-        if r[0] != "attr":
-            ctx.need(r[0] == "keyerror", "cannot partially evaluate get_emitter({!r}): {}".format(s, r))
-            ctx.ob("C19.dispatch", get_emitter, "get_emitter({!r})".format(s), False, r[1], line=get_emitter.node.lineno)
-            continue
-        ok, msg = exists(index, r[1], r[2])
-        ctx.ob("C19.dispatch", get_emitter, "get_emitter({!r}) -> {}.{}".format(s, r[1], r[2]), ok, msg, line=get_emitter.node.lineno)
-        if not ok:
-            continue
-        tf, pre_bound = underlying_function(index, r[1], r[2])
-        ctx.need(tf is not None, "cannot find the function behind {}.{}".format(r[1], r[2]))
-        kw = peval(index, env, gek, {"emit_name": s})
-        if kw[0] == "keyerror":
+            san = env.value("cdd.shared.pure_utils.sanitise_emit_name")
+        except Unknown as x:
+            ctx.need(False, "cannot fold sanitise_emit_name: {}".format(x))
+        always_kw = set()
+        for n in [x for h in holders for x in iter_own(h.node)]:
+            if isinstance(n, ast.Call) and isinstance(n.func, ast.Name) and n.func.id == "emitter":
+                always_kw = {k.arg for k in n.keywords if k.arg}
+                n_pos = len(n.args)
+        ctx.need(always_kw, "emitter(...) call vanished from get_functions_and_classes")
+        rows = []
+        for k in kinds:
+            try:
+                s = san(k)
+            except KeyError:
+                ctx.ob("C19.dispatch", gen, "sanitise_emit_name[{!r}]".format(k), False, "CLI emit kind missing from sanitise_emit_name", line=gen.node.lineno)
+                continue
+            r = peval(index, env, get_emitter, {"emit_name": s})
+            if r[0] != "attr":
+                ctx.need(r[0] == "keyerror", "cannot partially evaluate get_emitter({!r}): {}".format(s, r))
+                ctx.ob("C19.dispatch", get_emitter, "get_emitter({!r})".format(s), False, r[1], line=get_emitter.node.lineno)
+                continue
+            ok, msg = exists(index, r[1], r[2])
+            ctx.ob("C19.dispatch", get_emitter, "get_emitter({!r}) -> {}.{}".format(s, r[1], r[2]), ok, msg, line=get_emitter.node.lineno)
+            if not ok:
+                continue
+            tf, pre_bound = underlying_function(index, r[1], r[2])
+            ctx.need(tf is not None, "cannot find the function behind {}.{}".format(r[1], r[2]))
+            kw = peval(index, env, gek, {"emit_name": s})
+            if kw[0] == "keyerror":
+                ctx.ob(
+                    "C19.dispatch",
+                    gek,
+                    "get_emit_kwarg(emit_name={!r})".format(s),
+                    False,
+                    "`gen --emit {}` raises {}".format(k, kw[1]),
+                    line=gek.node.lineno,
+                )
+                continue
+            ctx.need(kw[0] == "value" and isinstance(kw[1], dict), "cannot partially evaluate get_emit_kwarg({!r}): {}".format(s, kw))
+            supplied = set(kw[1]) | always_kw | set(pre_bound)
+            a = tf.node.args
+            params = [x.arg for x in a.posonlyargs + a.args + a.kwonlyargs]
+            has_kwargs = a.kwarg is not None
+            extra = sorted(x for x in (set(kw[1]) | always_kw) if x not in params and not has_kwargs)
             ctx.ob(
                 "C19.dispatch",
                 gek,
-                "get_emit_kwarg(emit_name={!r})".format(s),
-                False,
-                "`gen --emit {}` raises {}".format(k, kw[1]),
+                "keywords for {!r} are parameters of {}".format(s, tf.short),
+                not extra,
+                "" if not extra else "`gen --emit {}` passes unexpected keyword(s) {} to {}".format(k, extra, tf.qual),
                 line=gek.node.lineno,
             )
-            continue
-        ctx.need(kw[0] == "value" and isinstance(kw[1], dict), "cannot partially evaluate get_emit_kwarg({!r}): {}".format(s, kw))
-        supplied = set(kw[1]) | always_kw | set(pre_bound)
-        a = tf.node.args
-        params = [x.arg for x in a.posonlyargs + a.args + a.kwonlyargs]
-        has_kwargs = a.kwarg is not None
-        extra = sorted(x for x in (set(kw[1]) | always_kw) if x not in params and not has_kwargs)
-        ctx.ob(
-            "C19.dispatch",
-            gek,
-            "keywords for {!r} are parameters of {}".format(s, tf.short),
-            not extra,
-            "" if not extra else "`gen --emit {}` passes unexpected keyword(s) {} to {}".format(k, extra, tf.qual),
-            line=gek.node.lineno,
-        )
-        pos = a.posonlyargs + a.args
-        required = [x.arg for x in pos[: len(pos) - len(a.defaults)]][n_pos:]
-        required += [x.arg for x, d in zip(a.kwonlyargs, a.kw_defaults) if d is None]
-        missing = sorted(x for x in required if x not in supplied)
-        ctx.ob(
-            "C19.dispatch",
-            gek,
-            "required parameters of {} supplied for {!r}".format(tf.short, s),
-            not missing,
-            ""
-            if not missing
-            else "`gen --emit {}` raises TypeError: {}() missing required argument(s) {}".format(k, tf.short, missing),
-            line=gek.node.lineno,
-        )
-        rows.append({"kind": k, "sanitised": s, "emitter": tf.qual, "kwargs": sorted(kw[1])})
-        # ------------------------------------------------------- symbol
-        if s == "json_schema":
-            continue
-        name_params = _symbol_name_params(index, tf)
-        ctx.need(name_params is not None, "cannot find the emitted symbol's name in {}".format(tf.qual))
-        carried = [x for x in kw[1] if x.endswith("name") or x == "identifier"]
-        ok = any(x in name_params for x in carried)
-        ctx.ob(
-            "C19.symbol",
-            gek,
-            "{!r}: templated name goes to {} ; symbol named by {}".format(s, carried, sorted(name_params)),
-            ok,
-            ""
-            if ok
-            else "`gen --name-tpl T --emit {}`: __all__ lists T(name) but {} names its symbol from {} "
-            "(which falls back to the untemplated source name); the templated name is only passed as {}".format(
-                k, tf.short, sorted(name_params), carried
-            ),
-            line=gek.node.lineno,
-        )
-    ctx.samples = rows
-    ctx.exhaustive = True
-    del choices
-    _samepath(ctx, index, graph, gen)
-    _oneshot(ctx, index, graph, gen)
-    _future(ctx, index)
+            pos = a.posonlyargs + a.args
+            required = [x.arg for x in pos[: len(pos) - len(a.defaults)]][n_pos:]
+            required += [x.arg for x, d in zip(a.kwonlyargs, a.kw_defaults) if d is None]
+            missing = sorted(x for x in required if x not in supplied)
+            ctx.ob(
+                "C19.dispatch",
+                gek,
+                "required parameters of {} supplied for {!r}".format(tf.short, s),
+                not missing,
+                ""
+                if not missing
+                else "`gen --emit {}` raises TypeError: {}() missing required argument(s) {}".format(k, tf.short, missing),
+                line=gek.node.lineno,
+            )
+            rows.append({"kind": k, "sanitised": s, "emitter": tf.qual, "kwargs": sorted(kw[1])})
+            # ------------------------------------------------------- symbol
+            if s == "json_schema":
+                continue
+            name_params = _symbol_name_params(index, tf)
+            ctx.need(name_params is not None, "cannot find the emitted symbol's name in {}".format(tf.qual))
+            carried = [x for x in kw[1] if x.endswith("name") or x == "identifier"]
+            ok = any(x in name_params for x in carried)
+            ctx.ob(
+                "C19.symbol",
+                gek,
+                "{!r}: templated name goes to {} ; symbol named by {}".format(s, carried, sorted(name_params)),
+                ok,
+                ""
+                if ok
+                else "`gen --name-tpl T --emit {}`: __all__ lists T(name) but {} names its symbol from {} "
+                "(which falls back to the untemplated source name); the templated name is only passed as {}".format(
+                    k, tf.short, sorted(name_params), carried
+                ),
+                line=gek.node.lineno,
+            )
+        ctx.samples = rows
+        ctx.exhaustive = True
+        del choices
+        ctx.section(_samepath, ctx, index, graph, gen)
+        ctx.section(_oneshot, ctx, index, graph, gen)
+        ctx.section(_future, ctx, index)
+
+    ctx.section(_sec_dispatch)
+
 
 
 def _samepath(ctx, index, graph, gen):
